@@ -177,6 +177,8 @@ int spki_table_get_all(struct spki_table *spki_table, uint32_t asn, uint8_t *ski
 			tmp = lrtr_realloc(*result, *result_size * sizeof(**result));
 			if (!tmp) {
 				lrtr_free(*result);
+				*result = NULL;
+				*result_size = 0;
 				pthread_rwlock_unlock(&spki_table->lock);
 				return SPKI_ERROR;
 			}
@@ -212,6 +214,8 @@ int spki_table_search_by_ski(struct spki_table *spki_table, uint8_t *ski, struct
 			tmp = lrtr_realloc(*result, sizeof(**result) * (*result_size));
 			if (!tmp) {
 				lrtr_free(*result);
+				*result = NULL;
+				*result_size = 0;
 				pthread_rwlock_unlock(&spki_table->lock);
 				return SPKI_ERROR;
 			}
